@@ -40,16 +40,6 @@ def _is_xlexpr(ctx, node, m):
     return any(isinstance(x, (ast.Name, ast.Attribute)) and ctx.res.resolve(x, m) == XLT + 'XlExpr' for x in ast.walk(node))
 
 
-def _evals_param(ctx, fn, pname, depth=0):
-    """Does fn (transitively, 2 levels) call <pname>.eval(...) or <x>.eval(...) for x derived from pname?"""
-    deps = flow.Deps(fn)
-    for c in flow.calls_in(fn):
-        if isinstance(c.func, ast.Attribute) and c.func.attr == 'eval' and (
-                pname in deps.closure(names_in(c.func.value)) or f'@{pname}' in deps.closure(names_in(c.func.value))):
-            return c
-    return None
-
-
 def rule_1(ctx):
     """Delayed parameters receive unevaluated expressions - decided on a witness workbook evaluated as written: the branch that is
     not selected is never evaluated (its cell is not computed, an unknown function, a division by zero or a reference to the
@@ -265,10 +255,6 @@ def rule_5(ctx):
                    f'{name} takes the truth value of an argument that evaluated to #DIV/0! (result {out.value!r}) instead of returning the '
                    f'error: IF(1/0,1,2)=1, AND(1/0,TRUE)=TRUE, OR(#N/A,FALSE)=TRUE, NOT(#N/A)=FALSE')
     ctx.floor(4, 'thunk results in IF/AND/OR/NOT')
-
-
-def _error_checked(ctx, fn, m, var, after):
-    return False
 
 
 def rule_6(ctx):
